@@ -233,3 +233,30 @@ def api_reachable(crate):
                  "reader::Files::add", "reader::FilesToRead::new") or "reader::WriteXml<W>" in p or " as std::fmt::Display>" in p:
             roots.append(p)
     return reachable(g, roots)
+
+
+MUTATING = ("::insert", "::extend", "::clone_from", "::remove", "::clear", "::entry", "::retain", "::drain", "::push", "::append",
+            "::get_mut", "::iter_mut", "::values_mut", "::truncate", "::pop", "::swap_remove", "::sort", "::reverse", "::dedup")
+
+
+def field_writers(crate, field):
+    """Every site that can modify a struct field named `field`: mutating method calls whose receiver is (a reference to) a place
+    ending in that field, and direct assignments to such a place. -> [(fn, site, how, bb, term_or_stmt)]"""
+    out = []
+    for b in bodies(crate):
+        B = M.Body(b)
+        for i in sorted(B.reach):
+            for st in B.blocks[i]["stmts"]:
+                if st["k"] == "assign":
+                    fs = [p["f"] for p in (st["p"].get("proj") or []) if isinstance(p, dict) and "f" in p]
+                    if fs and fs[-1] == field:
+                        out.append((b["path"], st.get("sp", "?"), "assign", i, st))
+            t = B.term(i)
+            if t.get("k") == "call" and t["args"]:
+                d = M.Body.callee_decl(t) or ""
+                if d.endswith(MUTATING):
+                    for o in M.trace(B, t["args"][0], ()):
+                        fl = o.fields()
+                        if fl and fl[-1] == field:
+                            out.append((b["path"], t.get("sp", "?"), d, i, t))
+    return out
